@@ -55,18 +55,28 @@ Section Precedence.
     - apply dict_get_set_other. lia.
   Qed.
 
-  (* set-if-absent of a style's dictionary: what the element already has is kept, the rest is taken from the style *)
-  Theorem merge_absent_get src : forall d d' p, merge_absent vl src d = Some d' ->
-    dict_get d' p = match dict_get d p with Some x => Some x | None => dict_get src p end.
+  (* the first entry of a style's dictionary for p that the model accepts *)
+  Fixpoint valid_get (src : sdict) (p : Z) : option sv :=
+    match src with
+    | [] => None
+    | (k, x) :: s' => if (k =? p) && vl k x then Some x else valid_get s' p
+    end.
+
+  (* set-if-absent of a style's dictionary: what the element already has is kept, the rest is taken from the style; a value the
+     model rejects is skipped *)
+  Theorem merge_absent_get src : forall d p,
+    dict_get (merge_absent vl src d) p = match dict_get d p with Some x => Some x | None => valid_get src p end.
   Proof.
-    induction src as [|[k x] s IH]; intros d d' p H; cbn [merge_absent] in H.
-    - inversion H; subst. destruct (dict_get d' p); reflexivity.
-    - cbn [dict_get]. destruct (dict_has d k) eqn:Eh.
-      + rewrite (IH _ _ p H). destruct (dict_get d p) eqn:Eg; [reflexivity|].
+    induction src as [|[k x] s IH]; intros d p; cbn [merge_absent valid_get].
+    - destruct (dict_get d p); reflexivity.
+    - destruct (dict_has d k) eqn:Eh.
+      + rewrite IH. destruct (dict_get d p) eqn:Eg; [reflexivity|].
         destruct (k =? p) eqn:E; [|reflexivity]. apply Z.eqb_eq in E. subst k.
         rewrite dict_has_get, Eg in Eh. discriminate.
-      + destruct (vl k x); [|discriminate]. rewrite (IH _ _ p H). rewrite dict_get_app. cbn [dict_get].
-        destruct (dict_get d p) eqn:Eg; [reflexivity|]. destruct (k =? p); reflexivity.
+      + destruct (vl k x) eqn:Ev.
+        * rewrite IH. rewrite dict_get_app. cbn [dict_get].
+          destruct (dict_get d p) eqn:Eg; [reflexivity|]. destruct (k =? p); reflexivity.
+        * rewrite IH. rewrite andb_false_r. reflexivity.
   Qed.
 
   (* referential styling: the references are visited in the given order (the reader passes them reversed: later references first);
@@ -75,19 +85,18 @@ Section Precedence.
     match refs with
     | [] => None
     | r :: rest => match tbl_get t r with
-                   | Some s => match dict_get (st_styles s) p with Some x => Some x | None => first_provider t rest p end
+                   | Some s => match valid_get (st_styles s) p with Some x => Some x | None => first_provider t rest p end
                    | None => first_provider t rest p
                    end
     end.
 
-  Theorem referential_get t refs : forall d d' p, referential vl t refs d = Some d' ->
-    dict_get d' p = match dict_get d p with Some x => Some x | None => first_provider t refs p end.
+  Theorem referential_get t refs : forall d p,
+    dict_get (referential vl t refs d) p = match dict_get d p with Some x => Some x | None => first_provider t refs p end.
   Proof.
-    induction refs as [|r rest IH]; intros d d' p H; cbn [referential] in H.
-    - inversion H; subst. destruct (dict_get d' p); reflexivity.
-    - cbn [first_provider]. destruct (tbl_get t r) as [s|]; [|apply IH; exact H].
-      destruct (merge_absent vl (st_styles s) d) as [d1|] eqn:Em; [|discriminate].
-      rewrite (IH _ _ p H). rewrite (merge_absent_get _ _ _ p Em).
-      destruct (dict_get d p); [reflexivity|]. destruct (dict_get (st_styles s) p); reflexivity.
+    induction refs as [|r rest IH]; intros d p; cbn [referential first_provider].
+    - destruct (dict_get d p); reflexivity.
+    - destruct (tbl_get t r) as [s|]; [|apply IH].
+      rewrite IH, merge_absent_get.
+      destruct (dict_get d p); [reflexivity|]. destruct (valid_get (st_styles s) p); reflexivity.
   Qed.
 End Precedence.
